@@ -12,29 +12,42 @@ open Hand
 /-- the allow-list in force (an empty configured list means the library default) -/
 def allowed (algs : List String) : List String := if algs.isEmpty then Gen.defaultSigAlgs else algs
 
-/-- the signature `s` of `j` is a genuine signature by key pair `k`, over exactly `j`'s payload and
-    the header the token shows, and `k`'s type fits the algorithm -/
+/-- the signature `s` of `j` is a genuine signature by key pair `k`, over exactly `j`'s payload and the
+    protected header the token shows, made with the algorithm the token's header names, and `k`'s type fits it -/
 def genuine (j : JWS) (s : JSig) (k : JWK) : Bool :=
-  s.signer == some k.keyNo && s.signedBytes == j.payload.bytes && s.signedHdr == s.Header
+  s.signer == some k.keyNo && s.signedBytes == j.payload.bytes && s.signedHdr == s.Protected
     && s.signedAlg == s.Header.Algorithm && algFits k.kty s.Header.Algorithm
-
-/-- selection rules for a key taken from a PUBLISHED key set: declared use permits signatures and
-    the key id is consistent with the token header -/
-def publishedOK (s : JSig) (k : JWK) : Bool :=
-  (k.Use == "sig" || k.Use == "") && (k.KeyID == s.Header.KeyID || k.KeyID == "" || s.Header.KeyID == "")
-
-/-- a key of the set that justifies believing the token -/
-def justifies (ks : KeySet) (j : JWS) (s : JSig) (k : JWK) : Bool :=
-  ks.keys.contains k && genuine j s k &&
-    (match ks.kind with
-     | .published => publishedOK s k
-     | .jwtProfile => k.KeyID == s.Header.KeyID     -- the storage was asked for exactly this key id
-     | .static => true
-     | .nilSet => false)
 
 /-- keys of a published set that could match a token (use and type fit) -/
 def usable (ks : KeySet) (alg : String) : List JWK :=
   ks.keys.filter fun k => (k.Use == "sig" || k.Use == "") && algFits k.kty alg
+
+/-- the keys that remain candidates when the key id does not decide: the token names none, or the key has none -/
+def looseCandidates (ks : KeySet) (s : JSig) : List JWK :=
+  (usable ks s.Header.Algorithm).filter fun k => k.KeyID == "" || s.Header.KeyID == ""
+
+/-- "key ID consistent with the token header": the header (as go-jose merges protected and unprotected part)
+    names exactly this key's id; or one of the two has no id and `k` is the ONLY candidate left -/
+def kidConsistent (ks : KeySet) (s : JSig) (k : JWK) : Bool :=
+  (k.KeyID == s.Header.KeyID && s.Header.KeyID != "") ||
+    ((k.KeyID == "" || s.Header.KeyID == "") && looseCandidates ks s == [k])
+
+/-- selection rules for a key taken from a PUBLISHED key set: declared use permits signatures and
+    the key id is consistent with the token header -/
+def publishedOK (ks : KeySet) (s : JSig) (k : JWK) : Bool :=
+  (k.Use == "sig" || k.Use == "") && kidConsistent ks s k
+
+/-- the selection rule of the key-set kind -/
+def selectedOK (ks : KeySet) (s : JSig) (k : JWK) : Bool :=
+  match ks.kind with
+  | .published => publishedOK ks s k
+  | .jwtProfile => k.KeyID == s.Header.KeyID     -- the storage was asked for exactly this key id
+  | .static => true
+  | .nilSet => false
+
+/-- a key of the set that justifies believing the token -/
+def justifies (ks : KeySet) (j : JWS) (s : JSig) (k : JWK) : Bool :=
+  ks.keys.contains k && genuine j s k && selectedOK ks s k
 
 /-- Clauses an ACCEPTED token must satisfy; returns the name of the first one that fails. -/
 def acceptedOK (algs : List String) (ks : KeySet) (t : Token) (returned : Claims) : Option String :=
@@ -45,7 +58,8 @@ def acceptedOK (algs : List String) (ks : KeySet) (t : Token) (returned : Claims
     match j.Signatures with
     | [s] =>
       if !(allowed algs).contains s.Header.Algorithm then some "alg-not-allowed" else
-      if !(ks.keys.any fun k => justifies ks j s k) then some "no-trusted-key" else
+      if !(ks.keys.any fun k => genuine j s k) then some "no-trusted-key" else
+      if !(ks.keys.any fun k => justifies ks j s k) then some "key-not-consistent-with-header" else
       match t.middle with
       | none => some "payload-undecodable"
       | some p =>
